@@ -137,8 +137,8 @@ func c19Scenarios(tier string) []*mc.Scenario {
 	add("creators-after-delete", writeScenario(writeCfg{hx.Mem, "deleted", [][]reqKind{{rCreate}, {rCreate}}, "C19"}, nil))
 	add("writer-and-reader", c02Scenario(c02Cfg{w: writeCfg{hx.Mem, "live", [][]reqKind{{rUpdOK}}, "C19"}, reader: "cur"}))
 	add("writers-distinct-keys", c02Scenario(c02Cfg{w: writeCfg{hx.Mem, "none", [][]reqKind{{rCreate}}, "C19"}, other: []string{"/r/b"}}))
-	add("watcher-stalled-consumer", c05Scenario(c05Cfg{3, 2, "oldest", "stalled", [][]wop{{wCreateX, wUpdateX, wDeleteX}}, 1}))
-	add("watcher-eager-consumer", c05Scenario(c05Cfg{3, 1, "zero", "eager", [][]wop{{wCreateX, wUpdateX}}, 2}))
+	add("watcher-stalled-consumer", c05Scenario(c05Cfg{3, 2, "oldest", "stalled", [][]wop{{wCreateX, wUpdateX, wDeleteX}}, 1, false}))
+	add("watcher-eager-consumer", c05Scenario(c05Cfg{3, 1, "zero", "eager", [][]wop{{wCreateX, wUpdateX}}, 2, false}))
 	if tier == "thorough" {
 		add("compactor-writer-reader", c07SchedScenario(c07Sched{hx.Mem, [][]reqKind{{rUpdOK}}, false, true}))
 	} else {
@@ -190,10 +190,10 @@ func c19Scenarios(tier string) []*mc.Scenario {
 
 func init() {
 	mc.Register(&mc.Property{
-		ID:    "C19",
-		Level: "model_checking",
-		Rule: "every schedule (preemption-bounded DFS with happens-before state cache) of 10 concurrent workloads on the real backend over the in-memory engine - two writers on one key, creators after a delete, writer + point/range reader, writers on distinct keys, watcher with stalled and eager consumer, compactor + writer + reader, list-then-watch, two concurrent compactions, the unknown-outcome retry loop against a writer and a compaction - executed on a binary built with -race; the per-execution oracle is the Go race detector, which sees only the program's own synchronisation (the scheduler's baton is invisible to it); a report counts when both accesses lie in the node's own code or the in-process engine below it",
-		Assume: []string{"GOMAXPROCS=1 (the baton is a plain word)", "ThreadSanitizer reports each pair of access stacks once per process and keeps a bounded access history: it can miss a race, it cannot invent one", "scheduling points at sync/atomic/channel operations only: an unsynchronised access is not itself a scheduling point, the detector finds it from the happens-before relation of the explored execution"},
+		ID:        "C19",
+		Level:     "model_checking",
+		Rule:      "every schedule (preemption-bounded DFS with happens-before state cache) of 10 concurrent workloads on the real backend over the in-memory engine - two writers on one key, creators after a delete, writer + point/range reader, writers on distinct keys, watcher with stalled and eager consumer, compactor + writer + reader, list-then-watch, two concurrent compactions, the unknown-outcome retry loop against a writer and a compaction - executed on a binary built with -race; the per-execution oracle is the Go race detector, which sees only the program's own synchronisation (the scheduler's baton is invisible to it); a report counts when both accesses lie in the node's own code or the in-process engine below it",
+		Assume:    []string{"GOMAXPROCS=1 (the baton is a plain word)", "ThreadSanitizer reports each pair of access stacks once per process and keeps a bounded access history: it can miss a race, it cannot invent one", "scheduling points at sync/atomic/channel operations only: an unsynchronised access is not itself a scheduling point, the detector finds it from the happens-before relation of the explored execution"},
 		Scenarios: c19Scenarios,
 		Drive: func(c *mc.Ctx) {
 			if !vrt.RaceBuild {
